@@ -115,6 +115,15 @@ REGISTRY["C15"] = {
             "routing by identity, cancel affects precisely its task, refusal after stop, join on exit, start_task caller never left hanging.",
     "note": "Trusted: z3, CrossHair, C Task/Future, VLoop stubs, the thread-boundary stubs listed in the evidence. NOT covered: blocking halves (Future.result(), start_blocking_portal thread join, _BlockingAsyncContextManager), real thread interleavings, uvloop, trio.",
 }
+REGISTRY["C18"] = {
+    "harnesses": ["symx.harness.c18_sock"],
+    "level": "model_checking",
+    "text": "PARTIAL (stream layer over a contract stub): bounded symbolic model checking of the real StreamProtocol / SocketStream / UNIXSocketStream / ResourceGuard code on the virtual loop, "
+            "against a stub transport and a stub non-blocking socket that follow the documented contracts; chunk lengths, arrival instants, max_bytes, reader delays, partial recv/send "
+            "sizes, BlockingIOError occurrences, write-gate close/open instants and the aclose() instant are symbolic. Oracle: received bytes are a prefix of / equal to the sent bytes, "
+            "chunk size 1..max_bytes, EndOfStream after the data, send() never returns while the write gate is closed, all bytes written once in order, closed-stream errors, BusyResourceError.",
+    "note": "Trusted: z3, CrossHair, C Task/Future/deque, VLoop stubs, the transport/socket contract stubs. NOT covered: real kernel buffers and TCP loopback (the property's 'several socket buffers'), uvloop transports, fds passing, datagrams, trio.",
+}
 
 NOT_APPLICABLE = {
     "C17": "TLS record framing/fragmentation/truncation happens inside OpenSSL (ssl.SSLObject/MemoryBIO, C code): no available engine can execute it symbolically, and a stub would make the check a statement about the stub (DESIGN.md section 3, C17).",
